@@ -191,6 +191,7 @@ class Interp:
         self.solver.set('smt.mbqi', False)
         self.probe = 0
         self.polarity = 'oblige'    # how the spec clause being evaluated is used: assumed or to be proved
+        self.wire_terms = []        # values assumed to be wire (JSON) values whose kind is not known yet
         self.lazy_inv = []          # pending element invariants of dict fields (instantiated on key lookup)
         self.lazy_done = set()
         self.in_lazy = False
@@ -247,14 +248,15 @@ class Interp:
                 else:
                     rep = ctor(*[Val.accessor(k, j)(t) for j in range(ctor.arity())])
                 new.append((t, rep))
+        for t, rep in new:
+            if vals._c(rep) == 'FloatV':
+                self.assume_axiom(vals.wf_known(rep))
+            elif vals._c(rep) in ('ListV', 'DictV') and any(t.eq(w) for w in self.wire_terms):
+                self.world.builtins.wire_unfold(self, rep)
         if new:
             self.known = [(a, simp(z3.substitute(b, *new))) for a, b in self.known] + new
-            pc2 = []
-            for p in self.pc:
-                q = simp(z3.substitute(p, *new))
-                if not z3.is_true(q):
-                    pc2.append(q)
-            self.pc[:] = pc2
+            # entries keep their positions (sub-explorations slice the list by index)
+            self.pc[:] = [simp(z3.substitute(p, *new)) for p in self.pc]
             for tpl in new:
                 # keep the fact itself (the substitution turned it into `true`)
                 self.pc.append(tpl[0] == z3.substitute(tpl[1], *[x for x in new if x is not tpl]) if len(new) > 1 else tpl[0] == tpl[1])
@@ -279,6 +281,7 @@ class Interp:
         f = simp(f)
         if not z3.is_true(f) and not any(f.eq(x) for x in self.axioms):
             self.axioms.append(f)
+            self.learn(f)       # kind facts among the axioms refine later terms as well
 
     def _sync(self, solver, ids_attr):
         """make the solver's assertion stack equal to axioms + path condition, one scope per
@@ -430,7 +433,8 @@ class Interp:
         if ty in self.world.classes or ty.startswith('callable:'):
             return vals.CTOR_INDEX['ObjV']
         head = ty.split(':', 1)[0].split('|', 1)[0]
-        m = {'dict': 'DictV', 'enumdict': 'DictV', 'list': 'ListV', 'tuple': 'TupleV', 'ImmutableDict': 'DictV'}
+        m = {'dict': 'DictV', 'enumdict': 'DictV', 'list': 'ListV', 'tuple': 'TupleV', 'ImmutableDict': 'DictV',
+             'str': 'StrV', 'int': 'IntV', 'bool': 'BoolV', 'bytes': 'BytesV'}
         if head in m:
             return vals.CTOR_INDEX[m[head]]
         return None
@@ -696,7 +700,10 @@ class Interp:
             for h in s.handlers:
                 if self.handler_matches(h, r.exc):
                     if h.name:
-                        self.env[h.name] = r.exc
+                        exc = r.exc
+                        if exc.ty is None and isinstance(h.type, ast.Name) and h.type.id in self.world.classes:
+                            exc = SV(exc.t, h.type.id)      # the handler's class is known to be a base class
+                        self.env[h.name] = exc
                     fr.handled.append(r.exc)
                     try:
                         self.exec_block(h.body)
@@ -813,7 +820,10 @@ class Interp:
         return self.world.ops.fstring(self, e)
 
     def ex_Tuple(self, e):
-        return SV(V.TupleV(vals.valseq([self.as_val(self.ev(x)) for x in e.elts])))
+        items = [self.ev(x) for x in e.elts]
+        tys = [(x.ty if isinstance(x, SV) and x.ty else '?') for x in items]
+        ty = ('tuple|' + '|'.join(tys)) if any(t != '?' for t in tys) else None
+        return SV(V.TupleV(vals.valseq([self.as_val(x) for x in items])), ty)
 
     def ex_List(self, e):
         if any(isinstance(x, ast.Starred) for x in e.elts):
@@ -902,6 +912,13 @@ class Interp:
     def ex_BoolOp(self, e):
         # short-circuit with python value semantics.  In spec clauses a two-operand and/or whose
         # right operand evaluates without forking is combined into one if-then-else term
+        if len(e.values) > 2 and self.mode == 'spec':
+            # a and b and c  ==  a and (b and c): handled pairwise (each pair may combine without forking)
+            rest = ast.BoolOp(op=e.op, values=list(e.values[1:]))
+            ast.copy_location(rest, e)
+            e2 = ast.BoolOp(op=e.op, values=[e.values[0], rest])
+            ast.copy_location(e2, e)
+            return self.ex_BoolOp(e2)
         if len(e.values) == 2 and self.mode == 'spec':
             left = self.ev(e.values[0])
             isand = isinstance(e.op, ast.And)
